@@ -191,6 +191,33 @@ def run(ctx):
     diff = [("cd_from == cd_to", False)]
     _x1_graph(ctx, STREAM, "ClockDomainCrossing", fx, diff, [("self.sink", "self.source")])
     _wrapper_sides(ctx, fx_of(ctx, STREAM, "_FIFOWrapper"))
+    # the FIFO behind stream.AsyncFIFO is a two-clock FIFO in every configuration (buffered or not): a single-clock FIFO class there
+    # is clocked by `sys` while its two sides are driven from the renamed write / read domains
+    init_a = ctx.mod(STREAM).method("AsyncFIFO", "__init__")
+
+    def _leaves(e, depth=0):
+        if isinstance(e, ast.IfExp):
+            return _leaves(e.body, depth) | _leaves(e.orelse, depth)
+        if isinstance(e, ast.Name) and depth < 3:
+            out = set()
+            for st_ in ast.walk(init_a):
+                if isinstance(st_, ast.Assign) and any(isinstance(t_, ast.Name) and t_.id == e.id for t_ in st_.targets):
+                    out |= _leaves(st_.value, depth + 1)
+            return out or {e.id}
+        return {norm(e)}
+    fc = None
+    for c_ in ast.walk(init_a):
+        if isinstance(c_, ast.Call) and norm(c_.func) in ("_FIFOWrapper.__init__", "super().__init__"):
+            for k_ in c_.keywords:
+                if k_.arg == "fifo_class":
+                    fc = k_.value
+            if fc is None and len(c_.args) >= 2:
+                fc = c_.args[1] if norm(c_.func) == "_FIFOWrapper.__init__" else c_.args[0]
+    lv = _leaves(fc) if fc is not None else set()
+    ok = bool(lv) and lv <= {"fifo.AsyncFIFO", "fifo.AsyncFIFOBuffered"}
+    ctx.ob("X1", STREAM, "AsyncFIFO", "wrapped FIFO class is a two-clock FIFO in every configuration", ok,
+           "" if ok else f"fifo_class can be {sorted(lv)}: a single-clock FIFO behind the crossing is clocked by `sys`, its write and read "
+                         f"sides are sampled on the wrong clock -- tokens dropped / duplicated", init_a)
     cdc = [i for i in fx.insts if i.name == "cdc" and i.cls == "AsyncFIFO"]
     ok = len(cdc) == 1 and ("cd_from == cd_to", False) in cdc[0].pyguards
     ren = None
@@ -250,7 +277,22 @@ def run(ctx):
     ok = len(rst) == 1 and B.equivalent(B.from_expr(rst[0].value), B.from_expr("ResetSignal(cd_from) | ResetSignal(cd_to)"))
     ctx.ob("X4", STREAM, "ClockDomainCrossing", "common reset = OR of both domain resets", ok, "" if ok else f"{[a.v for a in rst]}")
     ars = [i for i in fx.insts if i.cls == "AsyncResetSynchronizer" and i.call is not None]
-    got = sorted((norm(i.call.args[0]), norm(i.call.args[1])) for i in ars if len(i.call.args) == 2)
+    got = []
+    for i in ars:
+        if len(i.call.args) != 2:
+            continue
+        a0, a1 = norm(i.call.args[0]), norm(i.call.args[1])
+        # `for d in [x, y]: specials += AsyncResetSynchronizer(d, rst)` is the two instances
+        lit = None
+        for var, it in (i.loops or []):
+            try:
+                itn = ast.parse(it, mode="eval").body
+            except SyntaxError:
+                continue
+            if isinstance(itn, (ast.List, ast.Tuple)) and all(isinstance(e, ast.Name) for e in itn.elts) and a0 == var:
+                lit = [e.id for e in itn.elts]
+        got += [(x, a1) for x in lit] if lit else [(a0, a1)]
+    got.sort()
     ok = got == [("_cd_from", "_cd_rst"), ("_cd_to", "_cd_rst")]
     ctx.ob("X4", STREAM, "ClockDomainCrossing", "both intermediate domains reset-synchronised on the same signal", ok, "" if ok else f"{got}")
     cds = [i for i in fx.insts if i.cls == "ClockDomain" and i.call is not None]
